@@ -61,6 +61,13 @@ theorem c02_builder_payload_intact (c : Call) (h : WF (build c)) :
     | _ => rfl
   · rw [(canon_keeps _).2.2.2.2]; cases c <;> rfl
 
+/-- API to API: `payload_from_frame` of what the peer decodes is the payload the application handed
+to the builder (`None` read as empty) -/
+theorem c02_payload_from_frame_of_built (c : Call) (h : WF (build c)) :
+    ∃ f, decode (encode (build c)) = .frame f ∧ payloadFromFrame f = c.content := by
+  obtain ⟨f, hd, _, _, hc, _⟩ := c02_builder_payload_intact c h
+  exact ⟨f, hd, hc⟩
+
 /-- the same through the generated definitions: decode ∘ encode ∘ (what the source's builder makes) -/
 theorem c02_generated_builder_payload_intact (c : Call) (h : WF (build c)) :
     ∃ f0 f, interp (genBuild c) = some f0 ∧ decode (encode f0) = .frame f ∧ f.sid = c.sid ∧ (f.md, f.data) = c.content := by
